@@ -19,7 +19,7 @@ func init() {
 		return engineA("C17", tier, []scen.Spec{scen.Queries(), market},
 			func() []explore.Monitor { return []explore.Monitor{&mon.C17{}} },
 			budget(tier, 150*time.Second, 15*time.Minute),
-			"C17 request alphabet per (query, filter argument): nil pagination; key walks with limit in {1,2,3,N,N+1} following next_key to exhaustion; offset in 0..N x limit in {1,2}; count_total on and off; reverse is not in the alphabet",
+			"C17 request alphabet per (query, filter argument): nil pagination; key walks with limit in {1,2,3,N,N+1} following next_key to exhaustion; offset in 0..N x limit in {1,2}; count_total on and off; reverse key walks (limit 1,2) and a reverse offset walk (limit 1)",
 			"C17 filter arguments: every value present in the state plus near-miss absent values (proper prefixes/extensions of ids, denoms, reference ids, URLs and IRIs; 19/21/32-byte variants of addresses; unknown and malformed values)",
 			"C17 oracle: brute-force filter over the primary-key full scan (snapshot); lists compared as multisets (no order demanded); total demanded only when count_total is set, no key is given and offset < N (the ORM counts only the remainder when a key is given and answers 0/N for offset >= N: recorded as observation counters)",
 			"C17: an error is accepted instead of an empty list when the entity named by the filter argument does not exist or the argument is malformed; Balance and BasketBalance may answer zero for a missing row",
